@@ -182,6 +182,9 @@ func genC03RC(seed uint64, r *rng.Rand) *Plan {
 					if g.R.Chance(0.15) {
 						o.Ctx = CtxSpec{Kind: "own", Pre: g.R.Chance(0.5)}
 					}
+					if g.R.Chance(0.03) {
+						o.Kind, o.Key, o.Vals = "get", nil, nil // the multi it ends up in cannot be marshalled
+					}
 					b.Batch = append(b.Batch, o)
 				}
 				if g.R.Chance(0.1) {
@@ -199,6 +202,11 @@ func genC03RC(seed uint64, r *rng.Rand) *Plan {
 			}
 			if g.R.Chance(0.3) {
 				o.MS = -1
+			}
+			if g.R.Chance(0.05) {
+				// a call that cannot be marshalled (nil row): it is completed
+				// with an error without anything being written
+				o = Op{Kind: "get", Table: "t", Key: nil, Nonce: g.Nonce(), SkipBatch: g.R.Chance(0.5), MS: o.MS}
 			}
 			ops = append(ops, o)
 		}
@@ -399,6 +407,12 @@ func runRC(p *Plan, keep bool, mode string) *Outcome {
 		bySeq := execIndex(c)
 		byNonce := execsByNonce(c)
 		inflight := 0
+		badBatched := false // some unmarshalable call may have been batched with others
+		for _, cl := range w.calls {
+			if cl.op.Key == nil && cl.op.Kind == "get" && (!cl.op.SkipBatch || cl.slot > 0) {
+				badBatched = true
+			}
+		}
 		for _, cl := range w.calls {
 			// drain what is left in the channel
 			for {
@@ -432,7 +446,10 @@ func runRC(p *Plan, keep bool, mode string) *Outcome {
 			}
 			for _, r := range cl.results {
 				if r.Error != nil {
-					if _, ok := r.Error.(region.ServerError); !ok {
+					// a request that cannot be marshalled is refused as a whole: the
+					// unmarshalable call itself, and the calls batched into a multi with it
+					marshal := strings.HasPrefix(r.Error.Error(), "failed to marshal request") && (cl.op.Key == nil || badBatched && !cl.op.SkipBatch)
+					if _, ok := r.Error.(region.ServerError); !ok && !marshal {
 						add("error-class", "call nonce=%d completed with %T (%v), not a connection-level error", cl.op.Nonce, r.Error, r.Error)
 					}
 					if len(byNonce[cl.op.Nonce]) == 0 {
